@@ -339,10 +339,26 @@ class Discharger:
         return None
 
     def from_path_can_return(self, variant):
+        """Trait::from_path must be an enumeration: every way it produces a result is `None` or `Some(Self::<V>)` for a literal variant
+        V; it can return `variant` iff some result names it.  Any other way of producing the result (a table lookup, a conversion)
+        may yield any variant."""
+        import re
+        from ..restable import result_leaves
         for f in self.cx.crate.fns:
             if f.qname.endswith('supported_traits::Trait::from_path'):
-                txt = es(f.block)
-                return ('Self::%s' % variant) in txt or ('Trait::%s' % variant) in txt
+                leaves = result_leaves(self.cx, f)
+                if not leaves:
+                    return True
+                for v, ctx, how, ev in leaves:
+                    t = es(v).replace(' ', '')
+                    if t == 'None':
+                        continue
+                    m = re.fullmatch(r'Some\((?:Self|Trait)::([A-Za-z_0-9]+)\)', t)
+                    if not m:
+                        return True
+                    if m.group(1) == variant:
+                        return True
+                return False
         return True
 
     # R6 ----------------------------------------------------------------------------------
